@@ -1,3 +1,620 @@
-(* TreeWF — see docs/ for the plan of this file. *)
+(* TreeWF — library for the tree proofs: lists, child lookup, sorting,
+   the pattern automaton, the conflict scan, new_leaf, route lists. *)
 From FoxBase Require Import Bytes.
-From FoxRoute Require Import Node Lookup Spec Tree.
+From FoxRoute Require Import Node Lookup Spec Tree WFDef.
+From Coq Require Import Sorting.Sorted Permutation.
+Open Scope char_scope.
+
+(* ---------- lists ---------- *)
+Lemma replace_nth_app (l1 : list node) c l2 c' : replace_nth (l1 ++ c :: l2) (List.length l1) c' = l1 ++ c' :: l2.
+Proof. induction l1 as [|x l1 IH]; simpl; [reflexivity|]. rewrite IH. reflexivity. Qed.
+
+Lemma remove_nth_app (l1 : list node) c l2 : remove_nth (l1 ++ c :: l2) (List.length l1) = l1 ++ l2.
+Proof. induction l1 as [|x l1 IH]; simpl; [reflexivity|]. rewrite IH. reflexivity. Qed.
+
+Lemma nth_error_app_mid {A} (l1 : list A) c l2 : nth_error (l1 ++ c :: l2) (List.length l1) = Some c.
+Proof. induction l1 as [|x l1 IH]; simpl; [reflexivity|exact IH]. Qed.
+
+Lemma nth_error_mid_split {A} (l : list A) i c : nth_error l i = Some c ->
+  exists l1 l2, l = l1 ++ c :: l2 /\ List.length l1 = i.
+Proof. intros H. apply nth_error_split in H. destruct H as [l1 [l2 [H1 H2]]]. exists l1, l2. auto. Qed.
+
+Lemma starts_with_hd c k : starts_with c k = true <-> exists r, k = c :: r.
+Proof.
+  destruct k as [|x r]; simpl.
+  - split; [discriminate|intros [r H]; discriminate].
+  - split.
+    + intros H. apply Ascii.eqb_eq in H. subst. eauto.
+    + intros [r' [= -> _]]. apply Ascii.eqb_refl.
+Qed.
+
+Lemma find_child_from_split c0 : forall l i0 i,
+  find_child_from i0 c0 l = Some i ->
+  exists l1 c l2, l = l1 ++ c :: l2 /\ i = i0 + List.length l1 /\ starts_with c0 (nkey c) = true
+                  /\ Forall (fun x => starts_with c0 (nkey x) = false) l1.
+Proof.
+  induction l as [|x l IH]; intros i0 i; simpl; [discriminate|].
+  destruct (starts_with c0 (nkey x)) eqn:E.
+  - intros [= <-]. exists [], x, l. simpl. repeat split; auto; lia.
+  - intros H. apply IH in H. destruct H as [l1 [c [l2 [-> [-> [H1 H2]]]]]].
+    exists (x :: l1), c, l2. simpl. repeat split; auto; lia.
+Qed.
+
+Lemma find_child_from_none c0 : forall l i0,
+  find_child_from i0 c0 l = None -> Forall (fun x => starts_with c0 (nkey x) = false) l.
+Proof.
+  induction l as [|x l IH]; intros i0; simpl; [constructor|].
+  destruct (starts_with c0 (nkey x)) eqn:E; [discriminate|]. intros H. constructor; eauto.
+Qed.
+
+(* the child selected by getEdge, with the decomposition of the children around it *)
+Lemma find_child_some n c0 i : find_child n c0 = Some i ->
+  exists l1 c l2, nchildren n = l1 ++ c :: l2 /\ i = List.length l1 /\ starts_with c0 (nkey c) = true
+                  /\ nth_error (nchildren n) i = Some c
+                  /\ Forall (fun x => starts_with c0 (nkey x) = false) l1.
+Proof.
+  unfold find_child. intros H. apply find_child_from_split in H.
+  destruct H as [l1 [c [l2 [E [-> [H1 H2]]]]]]. exists l1, c, l2. simpl. rewrite E.
+  repeat split; auto. apply nth_error_app_mid.
+Qed.
+
+Lemma fb_starts c0 x : starts_with c0 (nkey x) = true -> fb x = nat_of_ascii c0.
+Proof. intros H. apply starts_with_hd in H. destruct H as [r H]. unfold fb. rewrite H. reflexivity. Qed.
+
+Lemma starts_fb_ne c0 x y : starts_with c0 (nkey x) = true -> fb x <> fb y -> starts_with c0 (nkey y) = false.
+Proof.
+  intros H1 H2. destruct (starts_with c0 (nkey y)) eqn:E; [|reflexivity].
+  apply fb_starts in H1, E. congruence.
+Qed.
+
+(* with sorted children, the selected child is the only one starting with that byte *)
+Lemma sorted_mid_unique l1 c l2 c0 : sorted_fb (l1 ++ c :: l2) -> starts_with c0 (nkey c) = true ->
+  Forall (fun x => starts_with c0 (nkey x) = false) (l1 ++ l2).
+Proof.
+  unfold sorted_fb. intros Hs Hc. apply Forall_app. split.
+  - induction l1 as [|x l1 IH]; [constructor|]. simpl in Hs. inversion Hs as [|? ? H1 H2]; subst.
+    constructor; [|apply IH; exact H1]. rewrite Forall_forall in H2.
+    assert (fb x < fb c) as Hlt by (apply H2; apply in_or_app; right; left; reflexivity).
+    destruct (starts_with c0 (nkey x)) eqn:E; [|reflexivity].
+    apply fb_starts in E, Hc. lia.
+  - induction l1 as [|x l1 IH]; simpl in Hs.
+    + inversion Hs as [|? ? H1 H2]; subst. rewrite Forall_forall in *. intros y Hy.
+      apply (starts_fb_ne c0 c y Hc). specialize (H2 y Hy). lia.
+    + inversion Hs; subst. auto.
+Qed.
+
+Lemma sorted_fb_app_inv l1 l2 : sorted_fb (l1 ++ l2) -> sorted_fb l1 /\ sorted_fb l2.
+Proof.
+  unfold sorted_fb. induction l1 as [|x l1 IH]; simpl; intros H.
+  - split; [constructor|exact H].
+  - inversion H as [|? ? H1 H2]; subst. destruct (IH H1) as [Ha Hb]. split; [|exact Hb].
+    constructor; [exact Ha|]. apply Forall_app in H2. tauto.
+Qed.
+
+(* replacing the selected child by one with the same first byte keeps the order *)
+Lemma sorted_fb_replace l1 c l2 c' : sorted_fb (l1 ++ c :: l2) -> fb c' = fb c -> sorted_fb (l1 ++ c' :: l2).
+Proof.
+  unfold sorted_fb. intros Hs He. induction l1 as [|x l1 IH]; simpl in *.
+  - inversion Hs; subst. constructor; [assumption|]. rewrite He. assumption.
+  - inversion Hs as [|? ? H1 H2]; subst. constructor; [auto|].
+    apply Forall_app in H2. destruct H2 as [Ha Hb]. apply Forall_app. split; [exact Ha|].
+    inversion Hb; subst. constructor; [rewrite He; assumption|assumption].
+Qed.
+
+Lemma sorted_fb_remove l1 c l2 : sorted_fb (l1 ++ c :: l2) -> sorted_fb (l1 ++ l2).
+Proof.
+  unfold sorted_fb. intros Hs. induction l1 as [|x l1 IH]; simpl in *.
+  - inversion Hs; subst. assumption.
+  - inversion Hs as [|? ? H1 H2]; subst. constructor; [auto|].
+    apply Forall_app in H2. destruct H2 as [Ha Hb]. apply Forall_app. split; [exact Ha|].
+    inversion Hb; subst. assumption.
+Qed.
+
+(* ---------- common_prefix ---------- *)
+Lemma common_prefix_split : forall a b,
+  a = common_prefix a b ++ skipn (List.length (common_prefix a b)) a /\
+  b = common_prefix a b ++ skipn (List.length (common_prefix a b)) b /\
+  match skipn (List.length (common_prefix a b)) a, skipn (List.length (common_prefix a b)) b with
+  | x :: _, y :: _ => x <> y
+  | _, _ => True
+  end.
+Proof.
+  induction a as [|x a IH]; intros [|y b]; simpl; auto.
+  destruct (Ascii.eqb_spec x y) as [->|Hn]; simpl.
+  - destruct (IH b) as [H1 [H2 H3]]. repeat split; [f_equal; exact H1|f_equal; exact H2|exact H3].
+  - auto.
+Qed.
+
+Lemma length_eq_skipn_nil {A} (l : list A) n : n = List.length l -> skipn n l = [].
+Proof. intros ->. apply skipn_all. Qed.
+
+Lemma skipn_nil_length {A} (l : list A) n : n <= List.length l -> skipn n l = [] -> n = List.length l.
+Proof.
+  intros Hle H. assert (List.length (skipn n l) = 0) as H0 by (rewrite H; reflexivity).
+  rewrite skipn_length in H0. lia.
+Qed.
+
+Lemma common_prefix_len_l a b : List.length (common_prefix a b) <= List.length a.
+Proof.
+  revert b. induction a as [|x a IH]; intros [|y b]; simpl; try lia.
+  destruct (Ascii.eqb x y); simpl; [specialize (IH b)|]; lia.
+Qed.
+Lemma common_prefix_len_r a b : List.length (common_prefix a b) <= List.length b.
+Proof.
+  revert b. induction a as [|x a IH]; intros [|y b]; simpl; try lia.
+  destruct (Ascii.eqb x y); simpl; [specialize (IH b)|]; lia.
+Qed.
+
+Inductive cp_case (rest k : bytes) : Prop :=
+| CpExact : rest = k -> common_prefix rest k = k -> cp_case rest k
+| CpKeyPrefix s : s <> [] -> rest = k ++ s -> common_prefix rest k = k -> skipn (List.length k) rest = s -> cp_case rest k
+| CpRestPrefix s : s <> [] -> k = rest ++ s -> common_prefix rest k = rest -> skipn (List.length rest) k = s -> cp_case rest k
+| CpDiverge u a s b s' : a <> b -> rest = u ++ a :: s -> k = u ++ b :: s' -> common_prefix rest k = u ->
+    skipn (List.length u) rest = a :: s -> skipn (List.length u) k = b :: s' -> cp_case rest k.
+
+Lemma cp_cases rest k : cp_case rest k.
+Proof.
+  destruct (common_prefix_split rest k) as [H1 [H2 H3]].
+  remember (common_prefix rest k) as cp eqn:Ecp. remember (List.length cp) as l eqn:El.
+  destruct (skipn l rest) as [|a s] eqn:E1; destruct (skipn l k) as [|b s'] eqn:E2.
+  - rewrite app_nil_r in H1, H2. apply CpExact; congruence.
+  - rewrite app_nil_r in H1. apply (CpRestPrefix rest k (b :: s')); try congruence.
+  - rewrite app_nil_r in H2. apply (CpKeyPrefix rest k (a :: s)); try congruence.
+  - apply (CpDiverge rest k cp a s b s'); subst; auto.
+Qed.
+
+Lemma common_prefix_starts c0 r k : starts_with c0 k = true -> exists cp', common_prefix (c0 :: r) k = c0 :: cp'.
+Proof.
+  intros H. apply starts_with_hd in H. destruct H as [k' ->]. simpl. rewrite Ascii.eqb_refl. eauto.
+Qed.
+
+(* ---------- sorting ---------- *)
+Lemma perm_Forall {A} (P : A -> Prop) l l' : Permutation l l' -> Forall P l -> Forall P l'.
+Proof.
+  intros H1 H2. rewrite Forall_forall in *. intros x Hx. apply H2.
+  eapply Permutation_in; [symmetry; exact H1|exact Hx].
+Qed.
+
+Lemma insert_sorted_perm n l : Permutation (insert_sorted n l) (n :: l).
+Proof.
+  induction l as [|m r IH]; simpl; [reflexivity|].
+  destruct (bytes_ltb (nkey m) (nkey n)); [|reflexivity].
+  rewrite IH. apply perm_swap.
+Qed.
+
+Lemma sort_nodes_perm l : Permutation (sort_nodes l) l.
+Proof.
+  induction l as [|x l IH]; simpl; [reflexivity|].
+  rewrite insert_sorted_perm. constructor. exact IH.
+Qed.
+
+Lemma insert_sorted_sorted n l : nkey n <> [] -> Forall (fun c => nkey c <> []) l ->
+  sorted_fb l -> ~ In (fb n) (map fb l) -> sorted_fb (insert_sorted n l).
+Proof.
+  unfold sorted_fb. intros Hn. induction l as [|m r IH]; intros Hne Hs Hni; simpl.
+  - constructor; constructor.
+  - inversion Hne as [|? ? Hm Hr]; subst. inversion Hs as [|? ? H1 H2]; subst.
+    assert (fb m <> fb n) as Hmn by (intros E; apply Hni; left; exact E).
+    destruct (bytes_ltb (nkey m) (nkey n)) eqn:E.
+    + assert (fb m < fb n) as Hlt by (apply (bytes_ltb_fb m n); auto; split; auto;
+        intros Hh; apply Hmn; unfold fb; destruct (nkey m), (nkey n); simpl in *; congruence).
+      constructor.
+      * apply IH; auto. intros Hin. apply Hni. right. exact Hin.
+      * apply (perm_Forall _ (n :: r)); [symmetry; apply insert_sorted_perm|].
+        constructor; assumption.
+    + assert (fb n < fb m) as Hlt.
+      { destruct (Nat.lt_trichotomy (fb n) (fb m)) as [H|[H|H]]; [exact H|congruence|].
+        apply (bytes_ltb_fb m n) in H; auto. destruct H; congruence. }
+      constructor; [exact Hs|]. constructor; [exact Hlt|].
+      rewrite Forall_forall in *. intros y Hy. specialize (H2 y Hy). lia.
+Qed.
+
+Lemma sort_nodes_sorted l : Forall (fun c => nkey c <> []) l -> NoDup (map fb l) -> sorted_fb (sort_nodes l).
+Proof.
+  induction l as [|x l IH]; simpl; intros Hne Hnd.
+  - constructor.
+  - inversion Hne; subst. inversion Hnd; subst. apply insert_sorted_sorted; auto.
+    + apply (perm_Forall _ l); [symmetry; apply sort_nodes_perm|assumption].
+    + intros Hin. apply H3. eapply Permutation_in; [|exact Hin]. apply Permutation_map. apply sort_nodes_perm.
+Qed.
+
+Lemma sorted_fb_nodup l : sorted_fb l -> NoDup (map fb l).
+Proof.
+  unfold sorted_fb. induction l as [|x l IH]; simpl; intros H; [constructor|].
+  inversion H as [|? ? H1 H2]; subst. constructor; [|auto].
+  intros Hin. apply in_map_iff in Hin. destruct Hin as [y [He Hy]].
+  rewrite Forall_forall in H2. specialize (H2 y Hy). lia.
+Qed.
+
+Lemma fb_eq_starts c0 y : nkey y <> [] -> fb y = nat_of_ascii c0 -> starts_with c0 (nkey y) = true.
+Proof.
+  unfold fb. destruct (nkey y) as [|b r]; [congruence|]. intros _ H. simpl.
+  assert (b = c0) as ->.
+  { rewrite <- (ascii_nat_embedding b), <- (ascii_nat_embedding c0). f_equal. exact H. }
+  apply Ascii.eqb_refl.
+Qed.
+
+(* adding a child whose first byte is new, then sorting (newNode) *)
+Lemma sorted_add_child ch child c0 :
+  Forall (fun c => nkey c <> []) ch -> sorted_fb ch ->
+  Forall (fun x => starts_with c0 (nkey x) = false) ch -> starts_with c0 (nkey child) = true ->
+  sorted_fb (sort_nodes (ch ++ [child])).
+Proof.
+  intros Hne Hs Hno Hc. apply sort_nodes_sorted.
+  - apply Forall_app. split; [exact Hne|]. constructor; [|constructor].
+    apply starts_with_hd in Hc. destruct Hc as [r ->]. discriminate.
+  - rewrite map_app. simpl. apply (Permutation_NoDup (l := fb child :: map fb ch)).
+    + apply Permutation_cons_append.
+    + constructor; [|apply sorted_fb_nodup; exact Hs].
+      intros Hin. apply in_map_iff in Hin. destruct Hin as [y [He Hy]].
+      rewrite Forall_forall in Hno, Hne. specialize (Hno y Hy). specialize (Hne y Hy).
+      rewrite (fb_starts c0 child Hc) in He. apply fb_eq_starts in He; auto. congruence.
+Qed.
+
+(* ---------- the pattern automaton ---------- *)
+Ltac deqb := repeat match goal with
+  | |- context [Ascii.eqb ?a ?b] => destruct (Ascii.eqb_spec a b); subst; simpl in *
+  | H : context [Ascii.eqb ?a ?b] |- _ => destruct (Ascii.eqb_spec a b); subst; simpl in *
+  end.
+
+Lemma vrun_app u v : vrun (u ++ v) = fold_left vstep v (vrun u).
+Proof. unfold vrun. apply fold_left_app. Qed.
+
+Lemma vrun_snoc u c : vrun (u ++ [c]) = vstep (vrun u) c.
+Proof. rewrite vrun_app. reflexivity. Qed.
+
+Lemma vbad_abs v h : fold_left vstep v (h, VBad) = (h, VBad).
+Proof. induction v as [|c v IH]; simpl; auto. Qed.
+
+Lemma vstep_nonbad s c : snd (vstep s c) <> VBad -> snd s <> VBad.
+Proof. destruct s as [h st]. intros H E. simpl in E. subst. simpl in H. congruence. Qed.
+
+Lemma vfold_nonbad v : forall s, snd (fold_left vstep v s) <> VBad -> snd s <> VBad.
+Proof.
+  induction v as [|c v IH]; simpl; intros s H; [exact H|]. apply IH in H. eapply vstep_nonbad; eauto.
+Qed.
+
+Lemma nonbad_app u v : snd (vrun (u ++ v)) <> VBad -> snd (vrun u) <> VBad.
+Proof. rewrite vrun_app. apply vfold_nonbad. Qed.
+
+Lemma vclosed_nonbad s : vclosed s = true -> snd s <> VBad.
+Proof. unfold vclosed. destruct (snd s); congruence. Qed.
+
+Lemma closed_nonbad u : closed u = true -> snd (vrun u) <> VBad.
+Proof. apply vclosed_nonbad. Qed.
+
+Lemma closed_app_nonbad u v : closed (u ++ v) = true -> snd (vrun u) <> VBad.
+Proof. intros H. eapply nonbad_app. apply closed_nonbad. exact H. Qed.
+
+Lemma vstep_h_mono s c : fst (vstep s c) = true -> fst s = true.
+Proof. destruct s as [[|] st]; [reflexivity|]. destruct st; simpl; deqb; auto. Qed.
+
+Lemma vfold_h_mono v : forall s, fst (fold_left vstep v s) = true -> fst s = true.
+Proof. induction v as [|c v IH]; simpl; intros s H; [exact H|]. apply IH in H. eapply vstep_h_mono; eauto. Qed.
+
+Lemma hostpart_app u v : hostpart (u ++ v) = true -> hostpart u = true.
+Proof. unfold hostpart. rewrite vrun_app. apply vfold_h_mono. Qed.
+
+Lemma hostpart_slash u : snd (vrun u) <> VBad -> (hostpart u = true <-> ~ In "/" u).
+Proof.
+  unfold hostpart. induction u as [|c u IH] using rev_ind; intros Hnb.
+  - simpl. tauto.
+  - rewrite vrun_snoc in *. specialize (IH (vstep_nonbad _ _ Hnb)).
+    rewrite in_app_iff. simpl. destruct (vrun u) as [h st]. simpl in IH.
+    destruct st; simpl in *; deqb; try congruence; try destruct h; simpl in *; try congruence;
+      intuition congruence.
+Qed.
+
+Lemma closed_before_slash u w : snd (vrun (u ++ "/" :: w)) <> VBad -> closed u = true.
+Proof.
+  intros H. replace (u ++ "/" :: w) with ((u ++ ["/"]) ++ w) in H by (rewrite <- app_assoc; reflexivity).
+  apply nonbad_app in H. rewrite vrun_snoc in H. unfold closed, vclosed.
+  destruct (vrun u) as [h st]. destruct st; simpl in *; try reflexivity; try congruence.
+  all: try (destruct h; simpl in H; congruence).
+Qed.
+
+Lemma index_byte_split : forall s c i, index_byte s c = Some i ->
+  ~ In c (firstn i s) /\ List.length (firstn i s) = i /\ skipn i s = c :: skipn (S i) s.
+Proof.
+  induction s as [|x s IH]; intros c i; simpl; [discriminate|].
+  destruct (Ascii.eqb_spec x c) as [->|Hn].
+  - intros [= <-]. simpl. auto.
+  - destruct (index_byte s c) as [j|] eqn:E; [|discriminate]. simpl. intros [= <-].
+    destruct (IH c j E) as [H1 [H2 H3]]. simpl. repeat split; auto.
+    intros [H|H]; [congruence|auto].
+Qed.
+
+Lemma index_byte_app_notin : forall u w c, ~ In c u ->
+  index_byte (u ++ w) c = option_map (Nat.add (List.length u)) (index_byte w c).
+Proof.
+  induction u as [|x u IH]; intros w c Hni; simpl.
+  - destruct (index_byte w c); reflexivity.
+  - destruct (Ascii.eqb_spec x c) as [->|Hn]; [exfalso; apply Hni; left; reflexivity|].
+    rewrite IH by (intros H; apply Hni; right; exact H).
+    destruct (index_byte w c); reflexivity.
+Qed.
+
+Lemma index_byte_in : forall u w c, In c u -> exists i, index_byte (u ++ w) c = Some i /\ i < List.length u.
+Proof.
+  induction u as [|x u IH]; intros w c Hin; simpl; [destruct Hin|].
+  destruct (Ascii.eqb_spec x c) as [->|Hn].
+  - exists 0. split; [reflexivity|lia].
+  - destruct Hin as [H|H]; [congruence|]. destruct (IH w c H) as [i [H1 H2]].
+    rewrite H1. exists (S i). split; [reflexivity|lia].
+Qed.
+
+(* the Go test charsMatched <= hostSplit is "no '/' read so far" *)
+Lemma hostpart_leb u w hs : snd (vrun u) <> VBad -> index_byte (u ++ w) "/" = Some hs ->
+  hostpart u = Nat.leb (List.length u) hs.
+Proof.
+  intros Hnb Hi. destruct (in_dec ascii_dec "/" u) as [Hin|Hni].
+  - destruct (index_byte_in u w "/" Hin) as [i [H1 H2]]. rewrite H1 in Hi. injection Hi as <-.
+    destruct (hostpart u) eqn:E.
+    + apply hostpart_slash in E; auto. contradiction.
+    + symmetry. apply Nat.leb_gt. exact H2.
+  - rewrite index_byte_app_notin in Hi by exact Hni.
+    destruct (index_byte w "/") as [j|]; [|discriminate]. simpl in Hi. injection Hi as <-.
+    assert (hostpart u = true) as -> by (apply hostpart_slash; auto).
+    symmetry. apply Nat.leb_le. lia.
+Qed.
+
+(* ---------- the conflict scan of tree.go:333-355 ---------- *)
+Definition sb_step (stop b1 b2 : ascii) (b : bool) (c : ascii) : bool :=
+  if Ascii.eqb c stop then false else if Ascii.eqb c b1 || Ascii.eqb c b2 then true else b.
+
+Lemma scan_back_fold stop b1 b2 cp :
+  scan_back stop b1 b2 (rev cp) = fold_left (sb_step stop b1 b2) cp false.
+Proof.
+  induction cp as [|c cp IH] using rev_ind; [reflexivity|].
+  rewrite rev_app_distr, fold_left_app. simpl. rewrite IH. reflexivity.
+Qed.
+
+Definition path_inv (s : bool * vst) (b : bool) : Prop :=
+  fst s = false ->
+  (b = true -> snd s = VName \/ snd s = VStar \/ snd s = VAfter) /\
+  (b = false -> snd s = VDef \/ snd s = VAfter).
+
+Lemma scan_path_inv s0 : (vclosed s0 = true \/ fst s0 = true) -> forall cp,
+  snd (fold_left vstep cp s0) <> VBad ->
+  path_inv (fold_left vstep cp s0) (fold_left (sb_step "/" "{" "*") cp false).
+Proof.
+  intros H0. induction cp as [|c cp IH] using rev_ind; intros Hnb.
+  - simpl. unfold path_inv. intros Hf. split; [discriminate|]. intros _.
+    destruct H0 as [H0|H0]; [|congruence]. unfold vclosed in H0. destruct (snd s0); auto; discriminate.
+  - rewrite fold_left_app in Hnb. rewrite !fold_left_app. simpl in *. specialize (IH (vstep_nonbad _ _ Hnb)).
+    destruct (fold_left vstep cp s0) as [h st]. destruct (fold_left (sb_step "/" "{" "*") cp false);
+      unfold path_inv, sb_step in *; destruct h, st; simpl in *; deqb; try congruence;
+      intuition congruence.
+Qed.
+
+Definition host_inv (s : bool * vst) (b : bool) : Prop :=
+  fst s = true ->
+  (b = true -> snd s = VName \/ snd s = VAfter) /\
+  (b = false -> snd s = VDef \/ snd s = VAfter).
+
+Lemma scan_host_inv s0 : vclosed s0 = true -> forall cp,
+  snd (fold_left vstep cp s0) <> VBad ->
+  host_inv (fold_left vstep cp s0) (fold_left (sb_step "." "{" "{") cp false).
+Proof.
+  intros H0. induction cp as [|c cp IH] using rev_ind; intros Hnb.
+  - simpl. unfold host_inv. intros Hf. split; [discriminate|]. intros _.
+    unfold vclosed in H0. destruct (snd s0); auto; discriminate.
+  - rewrite fold_left_app in Hnb. rewrite !fold_left_app. simpl in *. specialize (IH (vstep_nonbad _ _ Hnb)).
+    destruct (fold_left vstep cp s0) as [h st]. destruct (fold_left (sb_step "." "{" "{") cp false);
+      unfold host_inv, sb_step in *; destruct h, st; simpl in *; deqb; try congruence;
+      intuition congruence.
+Qed.
+
+Lemma vstep_after s c : snd (vstep s c) = VAfter -> c = "}".
+Proof. destruct s as [h st]. destruct h, st; simpl; deqb; congruence. Qed.
+
+Lemma vstep_rbrace_closed s : snd (vstep s "}") <> VBad -> vclosed (vstep s "}") = true.
+Proof. destruct s as [h st]. destruct h, st; simpl; intros H; try reflexivity; congruence. Qed.
+
+Lemma prefix_conflict_host cp :
+  prefix_conflict true cp
+  = match rev cp with [] => false | c :: _ => if Ascii.eqb c "}" then false else scan_back "." "{" "{" (rev cp) end.
+Proof.
+  unfold prefix_conflict. cbn [negb]. cbv iota. destruct (rev cp) as [|c r]; [reflexivity|].
+  destruct (Ascii.eqb_spec c "}") as [->|Hn]; [reflexivity|].
+  destruct c as [[|] [|] [|] [|] [|] [|] [|] [|]]; try reflexivity. congruence.
+Qed.
+
+(* what the scan tells about the state of the automaton after pre ++ cp *)
+Lemma prefix_conflict_spec pre cp :
+  closed pre = true -> snd (vrun (pre ++ cp)) <> VBad ->
+  (prefix_conflict (hostpart (pre ++ cp)) cp = false -> closed (pre ++ cp) = true) /\
+  (prefix_conflict (hostpart (pre ++ cp)) cp = true ->
+     snd (vrun (pre ++ cp)) = VName \/ snd (vrun (pre ++ cp)) = VStar \/
+     (snd (vrun (pre ++ cp)) = VAfter /\ hostpart (pre ++ cp) = false)).
+Proof.
+  intros Hc Hnb. unfold closed, hostpart in *. rewrite vrun_app in *.
+  destruct (fst (fold_left vstep cp (vrun pre))) eqn:Hh.
+  - (* hostname *)
+    rewrite prefix_conflict_host.
+    destruct cp as [|c cp' _] using rev_ind.
+    { simpl. split; [intros _; exact Hc|discriminate]. }
+    rewrite rev_app_distr. simpl rev. cbn [app].
+    destruct (Ascii.eqb_spec c "}") as [->|Hne].
+    + split; [|discriminate]. intros _. rewrite fold_left_app in *. simpl in *.
+      apply vstep_rbrace_closed. exact Hnb.
+    + replace (c :: rev cp') with (rev (cp' ++ [c])) by (rewrite rev_app_distr; reflexivity).
+      rewrite scan_back_fold.
+      pose proof (scan_host_inv (vrun pre) Hc (cp' ++ [c]) Hnb) as Hi. unfold host_inv in Hi.
+      destruct (Hi Hh) as [Ht Hf]. split.
+      * intros E. unfold vclosed. destruct (Hf E) as [-> | ->]; reflexivity.
+      * intros E. destruct (Ht E) as [H|H]; [left; exact H|].
+        rewrite fold_left_app in H. simpl in H. apply vstep_after in H. congruence.
+  - (* path *)
+    unfold prefix_conflict. cbn [negb]. cbv iota. rewrite scan_back_fold.
+    pose proof (scan_path_inv (vrun pre) (or_introl Hc) cp Hnb) as Hi. unfold path_inv in Hi.
+    destruct (Hi Hh) as [Ht Hf]. split.
+    + intros E. unfold vclosed. destruct (Hf E) as [-> | ->]; reflexivity.
+    + intros E. destruct (Ht E) as [H|[H|H]]; auto.
+Qed.
+
+(* two legal continuations that differ in their first byte exclude the '*' and "}" states *)
+Lemma diverge_states u a s b s' : a <> b ->
+  snd (vrun (u ++ a :: s)) <> VBad -> snd (vrun (u ++ b :: s')) <> VBad ->
+  snd (vrun u) <> VStar /\ ~ (snd (vrun u) = VAfter /\ hostpart u = false).
+Proof.
+  intros Hab Ha Hb.
+  replace (u ++ a :: s) with ((u ++ [a]) ++ s) in Ha by (rewrite <- app_assoc; reflexivity).
+  replace (u ++ b :: s') with ((u ++ [b]) ++ s') in Hb by (rewrite <- app_assoc; reflexivity).
+  apply nonbad_app in Ha, Hb. rewrite vrun_snoc in Ha, Hb. unfold hostpart.
+  destruct (vrun u) as [h st]. split.
+  - intros E. simpl in E. subst. simpl in *. deqb; congruence.
+  - intros [E1 E2]. simpl in E1, E2. subst. simpl in *. deqb; congruence.
+Qed.
+
+(* ---------- route lists ---------- *)
+Lemma height_child c ch : In c ch ->
+  node_height c <= fold_right (fun c acc => Nat.max (node_height c) acc) 0 ch.
+Proof.
+  induction ch as [|x ch IH]; simpl; [tauto|]. intros [->|H]; [lia|]. specialize (IH H). lia.
+Qed.
+
+Lemma routes_pre_rlist : forall fuel n, node_height n <= fuel -> routes_pre fuel n = rlist n.
+Proof.
+  induction fuel as [|f IH]; intros [k r ch] Hh.
+  - simpl in Hh. lia.
+  - cbn [routes_pre rlist nroute nchildren]. f_equal.
+    cbn [node_height] in Hh.
+    assert (forall c, In c ch -> node_height c <= f) as Hc.
+    { intros c Hin. apply height_child in Hin. lia. }
+    clear Hh. induction ch as [|c ch IHch]; [reflexivity|]. simpl. f_equal.
+    + apply IH. apply Hc. left. reflexivity.
+    + apply IHch. intros c' Hin. apply Hc. right. exact Hin.
+Qed.
+
+Lemma routes_of_node_rlist n : routes_of_node n = rlist n.
+Proof. apply routes_pre_rlist. lia. Qed.
+
+Lemma rlist_children_mid (l1 : list node) c l2 :
+  Permutation (flat_map rlist (l1 ++ c :: l2)) (rlist c ++ flat_map rlist (l1 ++ l2)).
+Proof.
+  rewrite !flat_map_app. simpl. rewrite app_assoc.
+  rewrite (Permutation_app_comm (flat_map rlist l1) (rlist c)). rewrite <- app_assoc. reflexivity.
+Qed.
+
+Lemma flat_map_rlist_perm l l' : Permutation l l' -> Permutation (flat_map rlist l) (flat_map rlist l').
+Proof. intros H. induction H; simpl; auto.
+  - apply Permutation_app_head. exact IHPermutation.
+  - rewrite !app_assoc. apply Permutation_app_tail. apply Permutation_app_comm.
+  - etransitivity; eauto.
+Qed.
+
+(* every route below a well-formed node extends the node's own path *)
+Lemma WF_rlist_pat : forall n pre rt, WF_node pre n -> In rt (rlist n) ->
+  exists k', rpat rt = (pre ++ nkey n) ++ k' /\ closed (rpat rt) = true /\ hostpart (rpat rt) = false
+             /\ (k' = [] -> nroute n = Some rt).
+Proof.
+  induction n as [k r ch IH] using node_ind2. intros pre rt Hwf Hin.
+  inversion Hwf as [? ? ? ? H1 H2 H3 H4 H5 H6 H7]; subst. cbn [rlist] in Hin. cbn [nkey nroute].
+  apply in_app_or in Hin. destruct Hin as [Hin|Hin].
+  - destruct r as [r0|]; [|destruct Hin]. destruct Hin as [->|[]].
+    destruct (H5 rt eq_refl) as [Ha Hb]. exists []. rewrite app_nil_r. rewrite Ha. auto.
+  - apply in_flat_map in Hin. destruct Hin as [c [Hc Hin]].
+    rewrite Forall_forall in IH, H7. destruct (IH c Hc (pre ++ k) rt (H7 c Hc) Hin) as [k' [Ha [Hb [Hd _]]]].
+    exists (nkey c ++ k'). rewrite Ha, <- !app_assoc. split; [reflexivity|]. rewrite !app_assoc, <- Ha. split; [exact Hb|]. split; [exact Hd|].
+    intros E. apply app_eq_nil in E. destruct E as [E _].
+    specialize (H7 c Hc). inversion H7; subst. simpl in E. congruence.
+Qed.
+
+Lemma WF_children_pat ch pre rt : Forall (WF_node pre) ch -> In rt (flat_map rlist ch) ->
+  exists c k', In c ch /\ In rt (rlist c) /\ nkey c <> [] /\ rpat rt = pre ++ nkey c ++ k' /\
+               closed (rpat rt) = true /\ hostpart (rpat rt) = false.
+Proof.
+  intros Hwf Hin. apply in_flat_map in Hin. destruct Hin as [c [Hc Hin]].
+  rewrite Forall_forall in Hwf. specialize (Hwf c Hc).
+  destruct (WF_rlist_pat c pre rt Hwf Hin) as [k' [Ha [Hb [Hd _]]]].
+  exists c, k'. rewrite <- app_assoc in Ha. split; [exact Hc|]. split; [exact Hin|]. split; [|auto]. inversion Hwf; subst. simpl. assumption.
+Qed.
+
+Lemma WF_rlist_nonempty : forall n pre, WF_node pre n -> rlist n <> [].
+Proof.
+  induction n as [k r ch IH] using node_ind2. intros pre Hwf.
+  inversion Hwf as [? ? ? ? H1 H2 H3 H4 H5 H6 H7]; subst. cbn [rlist].
+  destruct r as [r0|]; [discriminate|]. simpl.
+  assert (exists c ch', ch = c :: ch') as [c [ch' ->]].
+  { destruct (H6 eq_refl) as [Hl|[_ [g [-> _]]]]; [|eauto]. destruct ch; simpl in Hl; [lia|eauto]. }
+  simpl. inversion IH; subst. inversion H7; subst. intros E. apply app_eq_nil in E. destruct E as [E _].
+  eapply H8; eauto.
+Qed.
+
+Lemma WF_node_key_ne pre n : WF_node pre n -> nkey n <> [].
+Proof. intros H. inversion H; subst. assumption. Qed.
+
+Lemma WF_children_key_ne pre ch : Forall (WF_node pre) ch -> Forall (fun c => nkey c <> []) ch.
+Proof. intros H. eapply Forall_impl; [|exact H]. intros c. apply WF_node_key_ne. Qed.
+
+(* ---------- new_leaf ---------- *)
+Lemma firstn_cons_pos {A} n (x : A) l : 0 < n -> exists l', firstn n (x :: l) = x :: l'.
+Proof. destruct n; [lia|]. simpl. eauto. Qed.
+
+Lemma new_leaf_spec ri pre c0 s0 :
+  valid_rinfo ri -> rpat (ri_route ri) = pre ++ c0 :: s0 -> closed pre = true ->
+  WF_node pre (fst (new_leaf ri (List.length pre) (c0 :: s0))) /\
+  rlist (fst (new_leaf ri (List.length pre) (c0 :: s0))) = [ri_route ri] /\
+  starts_with c0 (nkey (fst (new_leaf ri (List.length pre) (c0 :: s0)))) = true.
+Proof.
+  intros [Hv Hi] Hp Hc. set (suffix := c0 :: s0) in *. set (hs := ri_hostsplit ri) in *.
+  unfold valid_patternb in Hv. apply andb_true_iff in Hv. destruct Hv as [Hcl Hhp].
+  apply negb_true_iff in Hhp. rewrite Hp in Hcl, Hhp, Hi.
+  assert (snd (vrun pre) <> VBad) as Hnb by (eapply closed_app_nonbad; eauto).
+  pose proof (hostpart_leb pre suffix hs Hnb Hi) as Hleb.
+  unfold new_leaf. fold hs. destruct (Nat.ltb 0 hs && Nat.ltb (List.length pre) hs) eqn:Econd.
+  - apply andb_true_iff in Econd. destruct Econd as [E1 E2]. apply Nat.ltb_lt in E1, E2.
+    assert (hostpart pre = true) as Hh by (rewrite Hleb; apply Nat.leb_le; lia).
+    assert (~ In "/" pre) as Hni by (apply hostpart_slash; auto).
+    rewrite index_byte_app_notin in Hi by exact Hni.
+    destruct (index_byte suffix "/") as [j|] eqn:Ej; [|discriminate]. simpl in Hi.
+    assert (hs - List.length pre = j) as -> by (injection Hi; lia).
+    assert (0 < j) as Hj by (injection Hi; lia).
+    destruct (index_byte_split suffix "/" j Ej) as [Hn1 [Hn2 Hn3]].
+    set (k1 := firstn j suffix) in *. set (k2 := skipn j suffix) in *.
+    assert (suffix = k1 ++ k2) as Hs by (symmetry; apply firstn_skipn).
+    cbn [fst]. unfold new_node. simpl sort_nodes.
+    assert (closed (pre ++ k1) = true) as Hck1.
+    { apply (closed_before_slash _ (skipn (S j) suffix)). rewrite <- app_assoc, <- Hn3.
+      fold k2. rewrite <- Hs. apply closed_nonbad. exact Hcl. }
+    assert (hostpart (pre ++ k1) = true) as Hhk1.
+    { apply hostpart_slash; [apply closed_nonbad; exact Hck1|]. rewrite in_app_iff. tauto. }
+    split; [|split; [reflexivity|]].
+    + constructor.
+      * intros E. rewrite E in Hn2. simpl in Hn2. lia.
+      * exact Hck1.
+      * auto.
+      * constructor; constructor.
+      * discriminate.
+      * intros _. right. split; [exact Hhk1|]. eexists. split; [reflexivity|]. cbn [nkey]. rewrite Hn3. reflexivity.
+      * constructor; [|constructor]. constructor.
+        -- rewrite Hn3. discriminate.
+        -- rewrite <- app_assoc, <- Hs. exact Hcl.
+        -- intros _ E. rewrite Hn3 in E. discriminate.
+        -- constructor.
+        -- intros rt [= <-]. rewrite <- app_assoc, <- Hs. split; [exact Hp|exact Hhp].
+        -- discriminate.
+        -- constructor.
+    + cbn [nkey]. unfold k1, suffix. destruct (firstn_cons_pos j c0 s0 Hj) as [l' ->]. simpl. apply Ascii.eqb_refl.
+  - cbn [fst]. split; [|split; [reflexivity|]].
+    + constructor.
+      * discriminate.
+      * exact Hcl.
+      * intros Hh Hs. exfalso.
+        assert (~ In "/" pre) as Hni by (apply hostpart_slash; auto).
+        rewrite index_byte_app_notin in Hi by exact Hni.
+        destruct (index_byte suffix "/") as [j|] eqn:Ej; [|discriminate]. simpl in Hi.
+        rewrite Hh in Hleb. symmetry in Hleb. apply Nat.leb_le in Hleb.
+        assert (j = 0) as ->.
+        { apply andb_false_iff in Econd. injection Hi as Hi.
+          destruct Econd as [E|E]; apply Nat.ltb_ge in E; lia. }
+        destruct (index_byte_split suffix "/" 0 Ej) as [_ [_ Hn3]]. simpl in Hn3.
+        assert (c0 = "/") as -> by (unfold suffix in Hn3; simpl in Hn3; congruence).
+        unfold suffix in Hs. simpl in Hs. discriminate.
+      * constructor.
+      * intros rt [= <-]. split; [exact Hp|exact Hhp].
+      * discriminate.
+      * constructor.
+    + simpl. apply Ascii.eqb_refl.
+Qed.
